@@ -247,8 +247,10 @@ func Run(t *testing.T, prop string) {
 	thorough := run.Thorough()
 	bound := vk.Pick(run, 2, 4)
 	run.Bound("delay_bound", bound)
-	run.Bound("delay_bound_deep_scenarios(quick: S02b; thorough: S02b,S04b,S13b)", bound+1)
-	run.Bound("delay_bound_three_subscriber_scenarios", 3)
+	if prop == "C12" {
+		run.Bound("delay_bound_deep_scenario(S02b)", bound+1)
+	}
+	run.Bound("delay_bound_three_subscription_scenarios(S12,S21,S22,S23)", 3)
 	run.Bound("deviation_bound(writer faults)", 1)
 	run.Bound("subscribers", vk.Pick(run, 2, 3))
 	// inside the bubble time.Now() is virtual: the deadline is checked on the real clock
